@@ -23,7 +23,7 @@ ARITH = dict(add=operator.add, sub=operator.sub, mul=operator.mul, truediv=opera
              floordiv=operator.floordiv, mod=operator.mod)
 CMP = dict(cmp_gt=operator.gt, cmp_ge=operator.ge, cmp_lt=operator.lt, cmp_le=operator.le, cmp_ne=operator.ne,
            cmp_eq=operator.eq)
-KINDS = ["intvar", "intreg", "fixvar", "fixreg", "iconst", "fconst"]
+KINDS = ["intvar", "intreg", "fixvar", "fixreg", "iconst", "fconst", "inthash", "fixhash"]
 ICONSTS = [3, 1, -2, 7, 100000, 0, 2 ** 31]
 FCONSTS = ["0.29", "0.1", "3.5", "0.57", "1.15", "0.00001", "-0.29", "99999.99999", "2.0"]
 RAWS = [0, 1, -1, 29000, 100000, 99999, 100001, 350000, -29000, 12345678, 2 ** 31, 2 ** 40, -(2 ** 40), 57000,
@@ -31,17 +31,22 @@ RAWS = [0, 1, -1, 29000, 100000, 99999, 100001, 350000, -29000, 12345678, 2 ** 3
 INTS = [0, 1, -1, 2, 3, 7, -7, 100000, 2 ** 31, 2 ** 40, 12]
 
 
-def build(op, lk, rk, dstfixed, lc, rc, use_kernel=False):
-    """lk / rk operand kinds; lc / rc the constant (int or decimal string) when the kind is a constant"""
+def build(op, lk, rk, dstfixed, lc, rc, use_kernel=False, scope=None):
+    """lk / rk operand kinds; lc / rc the constant (int or decimal string) when the kind is a constant;
+    scope: None or the name of a temporary inside whose block the statement is placed"""
     from ebpfcat.xdp import XDP, XDPExitCode
     from ebpfcat.arraymap import ArrayMap
+    from ebpfcat.hashmap import HashMap
     m = ArrayMap()
-    ns = dict(license="GPL", m=m, la=m.globalVar("x" if lk.startswith("fix") else "q"),
-              lb=m.globalVar("x" if rk.startswith("fix") else "q"), out=m.globalVar("x" if dstfixed else "q"),
+    hm = HashMap() if lk.endswith("hash") or rk.endswith("hash") else None
+    decl = lambda k: (hm if k.endswith("hash") else m).globalVar("x" if k.startswith("fix") else "q")
+    ns = dict(license="GPL", m=m, la=decl(lk), lb=decl(rk), out=m.globalVar("x" if dstfixed else "q"),
               mk1=m.globalVar("B"), mk2=m.globalVar("B"), mk3=m.globalVar("B"))
+    if hm is not None:
+        ns["hm"] = hm
 
     def operand(self, kind, var, regno, const):
-        if kind in ("intvar", "fixvar"):
+        if kind in ("intvar", "fixvar", "inthash", "fixhash"):
             return getattr(self, var)
         if kind == "intreg":
             self.sr[regno] = getattr(self, var)
@@ -54,6 +59,15 @@ def build(op, lk, rk, dstfixed, lc, rc, use_kernel=False):
         return float(const)
 
     def program(self):
+        if scope is None:
+            body(self)
+        else:
+            with getattr(self, scope):
+                setattr(self, scope, 1)
+                body(self)
+        self.exit(XDPExitCode.PASS)
+
+    def body(self):
         a = operand(self, lk, "la", 3, lc)
         b = operand(self, rk, "lb", 4, rc)
         if op in ARITH:
@@ -70,7 +84,6 @@ def build(op, lk, rk, dstfixed, lc, rc, use_kernel=False):
             with Else:
                 self.mk2 = 1
             self.mk3 = 1
-        self.exit(XDPExitCode.PASS)
     ns["program"] = program
     try:
         b = progs.build(type("Fx", (XDP,), ns), use_kernel=use_kernel)
@@ -102,7 +115,10 @@ def py_read(inst, var, raw8):
     return getattr(inst, var)
 
 
-def operand_rec(kind, inst, var, const):
+def operand_rec(kind, inst, var, const, hfd=0):
+    if kind.endswith("hash"):
+        key = type(inst).__dict__[var].count
+        return dict(kind="fix" if kind.startswith("fix") else "int", fd=hfd, off=key, key=[key])
     if kind in ("intvar", "intreg"):
         return dict(kind="int", fd=1, off=inst.__dict__[var])
     if kind in ("fixvar", "fixreg"):
@@ -144,16 +160,20 @@ def run(ctx):
     cases, meta, refused, insts = [], [], [], []
     pyset = pyread = 0
     vr = random.Random(9)
-    for sh in shapes:
+    for si, sh in enumerate(shapes):
         op, lk, rk, dstfixed, lc, rc = sh
+        # every fourth statement sits inside the block of a temporary (which then occupies a register, usually r0)
+        scope = (None, "stmp", None, None, None, "xtmp", None, None)[si % 8]
         try:
-            b = build(*sh)
+            b = build(*sh, scope=scope)
         except NotGenerated as e:
             refused.append((sh, str(e)[:120]))
             continue
         inst = b.inst
-        vs = b.maps[0]["vs"]
-        lrec, rrec = operand_rec(lk, inst, "la", lc), operand_rec(rk, inst, "lb", rc)
+        arrfd = next(j + 1 for j, mm in enumerate(b.maps) if mm["type"] == "array")
+        hfd = next((j + 1 for j, mm in enumerate(b.maps) if mm["type"] == "hash"), 0)
+        vs = b.maps[arrfd - 1]["vs"]
+        lrec, rrec = operand_rec(lk, inst, "la", lc, hfd), operand_rec(rk, inst, "lb", rc, hfd)
         vecs = [(100000 if lk.startswith("fix") else 3, 29000 if rk.startswith("fix") else 2),
                 (-350000 if lk.startswith("fix") else -7, 100000 if rk.startswith("fix") else 2)]
         while len(vecs) < nvec + (ctx.rng.random() < 0.2):
@@ -162,8 +182,14 @@ def run(ctx):
         py_side(inst, vs)
         for va, vb in vecs:
             buf = bytearray(vs)
+            hashes = []
             lr, rr = dict(lrec), dict(rrec)
             for var, v, kind, rec in (("la", va, lk, lr), ("lb", vb, rk, rr)):
+                if kind.endswith("const"):
+                    continue
+                if kind.endswith("hash"):
+                    hashes.append((hfd, bytes(rec["key"]), bytes(word(v, 8))))
+                    continue
                 off = inst.__dict__[var]
                 if kind.startswith("fix") and abs(v) < 2 ** 50:
                     # assigned from Python through the real descriptor; the specification is told the exact value
@@ -172,14 +198,14 @@ def run(ctx):
                     pyset += 1
                 else:
                     buf[off:off + 8] = bytes(word(v, 8))
-            c = progs.case(b, arr={1: bytes(buf)})
-            c.update(op=op, l=lr, r=rr, dstfixed=dstfixed, dst=dict(fd=1, off=inst.__dict__["out"], size=8), n=N,
-                     marks=[dict(i=i, fd=1, off=inst.__dict__[f"mk{i}"]) for i in (1, 2, 3)],
+            c = progs.case(b, arr={arrfd: bytes(buf)}, hashes=hashes)
+            c.update(op=op, l=lr, r=rr, dstfixed=dstfixed, dst=dict(fd=arrfd, off=inst.__dict__["out"], size=8), n=N,
+                     marks=[dict(i=i, fd=arrfd, off=inst.__dict__[f"mk{i}"]) for i in (1, 2, 3)],
                      ast=dict(k="const", v=word(0, N)), leaves=[])
             cases.append(c)
             insts.append(inst)
             meta.append(dict(op=op, left=lk, right=rk, dstfixed=dstfixed, lconst=lc if lk.endswith("const") else None,
-                             rconst=rc if rk.endswith("const") else None, va=va, vb=vb))
+                             rconst=rc if rk.endswith("const") else None, va=va, vb=vb, scope=scope))
     if not cases:
         raise T.MachineryError("no C02 case could be built")
     wd = ctx.workdir()
